@@ -138,7 +138,7 @@ def action_table(generated_text: str) -> str:
 
 
 PRELUDE = """From Coq Require Import ZArith.
-From Pegen Require Import Base.Values Runtime.Tokenizer Sem.Peg Runtime.Exec Runtime.MiniPy.
+From Pegen Require Import Base.Values Runtime.Tokenizer Sem.Peg Runtime.Exec Runtime.MiniPy Proofs.ExecInv.
 Definition KINDS : kinds := %s.
 Definition EXACT : list (string * N) := %s.
 Definition TDICT : list (string * N) := %s.
@@ -175,6 +175,10 @@ Definition rcase_ok (c : rcase) : bool :=
   | inl m => forallb (fun tr => forallb (run_ok m tbl (fst tr) ci) (snd tr)) inputs
   | inr _ => false
   end.
+(* the decidable hypothesis of the ExecInv/ExecFlag theorems on the module the generator model produces *)
+Definition rcase_wf (c : rcase) : bool :=
+  let '(g, fresh, tbl, ci, inputs) := c in
+  match run_gen g fresh with inl m => ir_wf m | inr _ => true end.
 Fixpoint idx_filter {A} (f : A -> bool) (i : nat) (l : list A) : list nat :=
   match l with [] => [] | x :: l' => if f x then idx_filter f (S i) l' else i :: idx_filter f (S i) l' end.
 Definition rcase_diag (c : rcase) : list (nat * list nat) :=
@@ -286,4 +290,10 @@ def krun(chk, pid: str, grammar_texts: list[str], inputs_for, configs=("q1",), c
                        f"parsers on {len(cases)} grammars x inputs x configurations {list(configs)} (outcome, value, final "
                        "position, tokens fetched, error-mode flag and the whole per-invocation event trace)",
                        not failing, detail)
+        nwf = common.run_cases(chk, "kwf", prelude(tokens_set()), CASE_T, cases, "rcase_wf", shard=max(shard, 40), timeout=600)
+        if nwf is not None:
+            chk.bump("explored grammars whose generated module satisfies ir_wf (hypothesis of the position/flag theorems)",
+                     len(cases) - len(nwf))
+            chk.bump("explored grammars outside ir_wf (a lookahead directly over a forced item: the recorded C01 finding)", len(nwf))
+            krun.not_wf = [descs[i] for i in nwf]
     return pairs
